@@ -120,3 +120,52 @@ func tokenRemovalPersists(c *Ctx, P string) []Obligation {
 			Target: RetNotMatch(0, `^`+rm+`#0$`), Why: "and handed back to the caller"},
 	})
 }
+
+// nodesLifecycle: stake / wait / release / begin / finish for nodes, the counterpart of the application rows.
+func nodesStakeRouting(c *Ctx, P string) []Obligation {
+	cur := kN + `GetValidator\(k, ctx, var:validator\.Address\)`
+	return c.Rows([]Row{
+		{Prop: P, ID: "nodes.stake.edit-takes-stored-record-first", Fn: "(x/nodes/keeper.Keeper).StakeValidator",
+			Target: CallTo(`^` + kN + `EditStakeValidator\(`).Except(`^` + kN + `EditStakeValidator\(k, ctx, ` + cur + `#0, var:validator, amount, signer\)$`),
+			Why:    "edit-stake is given the stored record as the node to edit and the message's node as the update"},
+		{Prop: P, ID: "nodes.stake.edit-only-for-staked", Fn: "(x/nodes/keeper.Keeper).StakeValidator", Assume: []Lit{T(`^` + cur + `#1$`), F(`^\(x/nodes/types\.Validator\)\.IsStaked\(` + cur + `#0\)$`)},
+			Target: CallTo(`EditStakeValidator\(`), Why: "a record that is not staked is not edited"},
+		{Prop: P, ID: "nodes.stake.edit-only-if-found", Fn: "(x/nodes/keeper.Keeper).StakeValidator", Assume: []Lit{F(`^` + cur + `#1$`)},
+			Target: CallTo(`EditStakeValidator\(`), Why: "no record, no edit"},
+		{Prop: P, ID: "nodes.stake.staked-record-is-edited", Fn: "(x/nodes/keeper.Keeper).StakeValidator", Assume: []Lit{T(`^invoke types\.Ctx\.IsAfterUpgradeHeight\(ctx\)$`), T(`^` + cur + `#1$`), T(`^\(x/nodes/types\.Validator\)\.IsStaked\(` + cur + `#0\)$`)},
+			Target: CallTo(`coinsFromUnstakedToStaked\(|` + kN + `SetValidator\(`), Why: "a staked record never goes down the fresh-stake path"},
+	})
+}
+
+func nodesIndexOnStake(c *Ctx, P string) []Obligation {
+	return c.Rows([]Row{
+		{Prop: P, ID: "stake.new-node-indexed-by-chain", Fn: "(x/nodes/keeper.Keeper).StakeValidator", From: `^` + kN + `SetValidator\(k, ctx, var:validator\)`,
+			Barrier: []string{`^` + kN + `SetStakedValidatorByChains\(k, ctx, var:validator\)`}, Target: TargetAnyReturn(), Why: "a newly staked node is entered in the per-chain index"},
+		{Prop: P, ID: "queue.append-writes-the-slot-back", Fn: "(x/nodes/keeper.Keeper).SetUnstakingValidator",
+			Barrier: []string{`^` + kN + `setUnstakingValidators\(k, ctx, val\.UnstakingCompletionTime, builtin\.append\(` + kN + `getUnstakingValidators\(k, ctx, val\.UnstakingCompletionTime\), \[val\.Address\]\)\)`}, Target: TargetAnyReturn(),
+			Why: "queueing a node writes its completion-time slot back with its address appended"},
+	})
+}
+
+func nodesUnstakeLifecycle(c *Ctx, P string) []Obligation {
+	w := kN + `GetWaitingValidators\(k, ctx\)\[\(phi:rangeindex \+ 1\)\]`
+	out := c.Rows([]Row{
+		{Prop: P, ID: "nodes.wait.request-is-recorded", Fn: "(x/nodes/keeper.Keeper).WaitToBeginUnstakingValidator",
+			Barrier: []string{`^` + kN + `SetWaitingValidator\(k, ctx, validator\)`}, Target: TargetAnyReturn(), Why: "a begin-unstake request puts the node in the waiting set"},
+		{Prop: P, ID: "nodes.begin.status-unstaking", Fn: "(x/nodes/keeper.Keeper).BeginUnstakingValidator",
+			Barrier: []string{`^\(x/nodes/types\.Validator\)\.UpdateStatus\(var:validator, 1\)`}, Target: CallTo(`^` + kN + `SetValidator\(`), TargetMustExist: true, Why: "the record stored is marked unstaking"},
+		{Prop: P, ID: "nodes.begin.stored", Fn: "(x/nodes/keeper.Keeper).BeginUnstakingValidator",
+			Barrier: []string{`^` + kN + `SetValidator\(k, ctx, var:validator\)`}, Target: TargetAnyReturn(), Why: "the unstaking record is stored (which queues it)"},
+		{Prop: P, ID: "nodes.begin.completion-time-from-block-time", Fn: "(x/nodes/keeper.Keeper).BeginUnstakingValidator",
+			Target: StoreTo(`UnstakingCompletionTime$`).ExceptVal(`^\(time\.Time\)\.Add\(invoke types\.Ctx\.BlockHeader\(ctx\)\.Time, ` + kN + `GetParams\(k, ctx\)\.UnstakingTime\)$`), Why: "the completion time is this block's time plus the unstaking time"},
+		{Prop: P, ID: "nodes.finish.stored-on-success", Fn: "(x/nodes/keeper.Keeper).FinishUnstakingValidator", Assume: []Lit{F(`^nonnil\(` + kN + `coinsFromStakedToUnstaked\(k, ctx, var:validator\)\)$`), F(`^nonnil\(\(x/nodes/types\.Validator\)\.RemoveStakedTokens\(var:validator, var:validator\.StakedTokens\)#1\)$`)},
+			Barrier: []string{`^` + kN + `SetValidator\(k, ctx, var:validator\)`}, Target: TargetAnyReturn(), Why: "the zeroed record is stored"},
+		{Prop: P, ID: "nodes.finish.status-unstaked", Fn: "(x/nodes/keeper.Keeper).FinishUnstakingValidator",
+			Barrier: []string{`^\(x/nodes/types\.Validator\)\.UpdateStatus\(var:validator, 0\)`}, Target: CallTo(`^` + kN + `SetValidator\(`), TargetMustExist: true, Why: "the record stored is marked unstaked"},
+	})
+	out = append(out,
+		c.edgeMust(P, "nodes.release.valid-waiting-node-begins", "(x/nodes/keeper.Keeper).ReleaseWaitingValidators", `^nonnil\(`+kN+`ValidateValidatorBeginUnstaking\(k, ctx, `+w+`\)\)$`, false, `^`+kN+`BeginUnstakingValidator\(k, ctx, `+w+`\)`, 1, "every waiting node that may begin unstaking does"),
+		c.edgeMust(P, "nodes.release.every-waiting-node-leaves-the-set", "(x/nodes/keeper.Keeper).ReleaseWaitingValidators", `^lt\(\(phi:rangeindex \+ 1\), builtin\.len\(`+kN+`GetWaitingValidators\(k, ctx\)\)\)$`, true, `^`+kN+`DeleteWaitingValidator\(k, ctx, `+w+`\.Address\)`, 1, "and every released node leaves the waiting set (it is not released again at the next boundary)"),
+	)
+	return out
+}
